@@ -217,9 +217,10 @@ static void property(Src& s, Case& c) {
 #ifdef SONIC_LOCKED_ALLOCATOR
   size_t scenario = s.weighted({0, 2, 5});
 #else
-  size_t scenario = s.weighted({5, 5, 0});
+  size_t scenario = s.weighted({5, 5, 0, 2});
 #endif
-  c.cls(scenario == 0 ? "scenario:own-documents" : scenario == 1 ? "scenario:shared-const-document" : "scenario:shared-locked-pool");
+  if (arg_value("scenario")) scenario = (size_t)arg_long("scenario", 0);
+  c.cls(scenario == 0 ? "scenario:own-documents" : scenario == 1 ? "scenario:shared-const-document" : scenario == 2 ? "scenario:shared-locked-pool" : "scenario:borrowed-strings-next-to-foreign-writes");
   c.cls("threads:" + std::to_string(nthreads));
   GenOpts go;
   go.max_nodes = 6 + c.size / 4;
@@ -321,6 +322,62 @@ static void property(Src& s, Case& c) {
     };
     if (freeing) { GenericDocument<DNode<SimpleAllocator>> d; go_run(d); }
     else { Document d; go_run(d); }
+  } else if (scenario == 3) {
+    // records {name bytes, counter} packed in one array: serialising threads build documents of their own whose strings BORROW
+    // the name bytes (SetString(ptr,len), AddMember with copyKey=false); counting threads write the counters right behind the
+    // names. Nobody writes a name, nobody but its counting thread touches a counter: a thread that only serialises its own
+    // document reads nothing but names. (Scenario of C09's "never strays outside its buffers" under ThreadSanitizer.)
+    struct Rec { char name[44]; uint32_t hits; };
+    size_t nrec = (size_t)s.pick(2, 12);
+    std::vector<Rec> recs(nrec);
+    std::vector<size_t> lens(nrec);
+    for (size_t i = 0; i < nrec; i++) {
+      lens[i] = (size_t)s.pick(1, 44);
+      for (size_t k = 0; k < 44; k++) recs[i].name[k] = (char)(k < lens[i] ? (s.coin(1, 8) ? '"' : 'a' + (int)s.index(26)) : 'Z');
+      recs[i].hits = 0;
+    }
+    // the name ends exactly where the counter begins
+    auto name_ptr = [&](size_t i) { return recs[i].name + (44 - lens[i]); };
+    for (size_t i = 0; i < nrec; i++) memmove(recs[i].name + (44 - lens[i]), recs[i].name, lens[i]);
+    if (c.counting) c.desc(std::to_string(nthreads) + " threads: serialise documents borrowing " + std::to_string(nrec) + " names / bump the counters behind the names");
+    auto serialise = [&](int t) {
+      std::string out;
+      Document d;
+      d.SetObject();
+      for (size_t i = 0; i < nrec; i++) {
+        Node v;
+        v.SetString(name_ptr((i + (size_t)t) % nrec), lens[(i + (size_t)t) % nrec]);
+        d.AddMember(StringView(name_ptr(i), lens[i]), std::move(v), d.GetAllocator(), false);
+      }
+      WriteBuffer wb;
+      d.Serialize(wb);
+      out.assign(wb.ToString(), wb.Size());
+      return out;
+    };
+    std::vector<std::string> expect;
+    for (int t = 0; t < nthreads; t++) expect.push_back(serialise(t));
+    for (int rep = 0; rep < g_reps && fail.empty(); rep++) {
+      Barrier bar(nthreads);
+      std::vector<std::string> got((size_t)nthreads);
+      std::vector<std::thread> th;
+      for (int t = 0; t < nthreads; t++)
+        th.emplace_back([&, t] {
+          bar.arrive();
+          if (t % 2 == 0) {
+            for (int k = 0; k < 20; k++) got[(size_t)t] = serialise(t);
+          } else {
+            // counting thread: owns the counters i with i % (number of counting threads) == its rank
+            size_t rank = (size_t)t / 2, ncount = (size_t)nthreads / 2;
+            for (int k = 0; k < 200; k++)
+              for (size_t i = rank; i < nrec; i += ncount) recs[i].hits++;
+            got[(size_t)t] = expect[(size_t)t];
+          }
+        });
+      for (auto& x : th) x.join();
+      c.subevals += (uint64_t)nthreads;
+      for (int t = 0; t < nthreads; t++)
+        if (got[(size_t)t] != expect[(size_t)t]) fail = "thread " + std::to_string(t) + " serialised its own document differently while other threads wrote the memory behind the borrowed strings";
+    }
   } else {
 #ifdef SONIC_LOCKED_ALLOCATOR
     std::vector<std::vector<PoolOp>> scripts((size_t)nthreads);
